@@ -2,7 +2,10 @@ package sim
 
 import (
 	"context"
+	"fmt"
+	"runtime"
 	"sync"
+	"sync/atomic"
 	"time"
 
 	"github.com/ali-assar/NATS-Leader-Election/leader"
@@ -23,6 +26,7 @@ type Inst struct {
 
 	mu          sync.Mutex
 	startCancel context.CancelFunc
+	yieldN      atomic.Int64
 	healthN     int
 	promotes    int64
 	startedCt   int64
@@ -75,12 +79,16 @@ func (m *metrics) SetIsLeader(v float64, l prometheus.Labels) {
 	}
 	in, root := flagSite()
 	m.in.w.tr.rec("flag", int64(m.in.idx), b, in, root, gid())
+	m.in.w.fire(m.in.idx, fmt.Sprintf("flag:%d", b))
+	m.in.yield()
 }
 func (m *metrics) SetConnectionStatus(v float64, l prometheus.Labels) {
 	m.in.w.tr.rec("connstat", int64(m.in.idx), int64(v))
 }
 func (m *metrics) IncTransitions(l prometheus.Labels) {
 	m.in.w.tr.rec("trans", int64(m.in.idx), sc(l["from_state"]), sc(l["to_state"]))
+	m.in.w.fire(m.in.idx, fmt.Sprintf("trans:%d", sc(l["to_state"])))
+	m.in.yield()
 }
 func (m *metrics) IncFailures(l prometheus.Labels)        {}
 func (m *metrics) IncAcquireAttempts(l prometheus.Labels) {}
@@ -88,7 +96,22 @@ func (m *metrics) IncTokenValidationFailures(l prometheus.Labels) {
 	m.in.w.tr.rec("tvfail", int64(m.in.idx))
 }
 func (m *metrics) ObserveHeartbeatDuration(d time.Duration, l prometheus.Labels) {}
-func (m *metrics) ObserveLeaderDuration(d time.Duration, l prometheus.Labels)    {}
+func (m *metrics) ObserveLeaderDuration(d time.Duration, l prometheus.Labels) {
+	m.in.w.fire(m.in.idx, "ldur") // no observation recorded; a trigger point inside the critical sections that end a term
+	m.in.yield()
+}
+
+// yield lets every other goroutine that is runnable at this instant run before the library continues
+func (in *Inst) yield() {
+	if in.w.sc.Yield {
+		// how long the call-out stays descheduled varies (derived from the scenario seed): schedules differ between scenarios
+		n := in.yieldN.Add(1)
+		k := int(uint64(mix(in.w.sc.Seed, int64(in.idx), 91, n, 0)) % 9)
+		for ; k > 0; k-- {
+			runtime.Gosched()
+		}
+	}
+}
 
 // ---------------------------------------------------------------- logger
 
@@ -132,6 +155,8 @@ func (l *logger) log(msg string, fields []zap.Field) {
 		}
 	}
 	l.in.w.tr.rec("log", int64(l.in.idx), c, gid(), extra)
+	l.in.w.fire(l.in.idx, fmt.Sprintf("log:%d", c))
+	l.in.yield()
 }
 func (l *logger) Debug(msg string, f ...zap.Field) { l.log(msg, f) }
 func (l *logger) Info(msg string, f ...zap.Field)  { l.log(msg, f) }
@@ -184,20 +209,25 @@ func (in *Inst) onPromote(ctx context.Context, token string) {
 	tk := tr.tokLocked(token)
 	tr.recLocked("promote", int64(in.idx), tk, gid())
 	tr.mu.Unlock()
-	// a separate observer of the context handed to the callback
+	// a separate observer of the context handed to the callback; a callback that is itself woken by the end of
+	// the context records it before it returns (the context ended while the callback was running)
 	obsCtx := ctx
+	var once sync.Once
+	done := func() { once.Do(func() { tr.rec("ctxdone", int64(in.idx), tk) }) }
 	go func() {
 		<-obsCtx.Done()
-		tr.rec("ctxdone", int64(in.idx), tk)
+		done()
 	}()
 	switch in.spec.Promote {
 	case "block":
 		<-ctx.Done()
+		done()
 	case "sleep":
 		time.Sleep(time.Duration(in.spec.PromoteNs))
 	case "sleepctx":
 		select {
 		case <-ctx.Done():
+			done()
 		case <-time.After(time.Duration(in.spec.PromoteNs)):
 		}
 	}
